@@ -161,6 +161,22 @@ def check_against_real(recs):
                 off += k
         else:
             one(obj, l, rec["blocks"][0], v, name)
+        # a reported gradient is a value: evaluating the gradient again (another vector, the other gradient) on the
+        # same object must not change a result handed out earlier
+        try:
+            first_q = obj.grad_quadratic_form_inv(v)
+            first_l = obj.grad_log_abs_det
+            keep = [np.array(x, dtype=float, copy=True) for x in (first_q if isinstance(first_q, tuple) else (first_q,))]
+            keepl = [np.array(x, dtype=float, copy=True) for x in (first_l if isinstance(first_l, tuple) else (first_l,))]
+            obj.grad_quadratic_form_inv(2.0 * v[::-1] + 1.0)
+            _ = obj.grad_log_abs_det
+            now = [np.asarray(x, dtype=float) for x in (first_q if isinstance(first_q, tuple) else (first_q,))]
+            nowl = [np.asarray(x, dtype=float) for x in (first_l if isinstance(first_l, tuple) else (first_l,))]
+            if any(not np.array_equal(a, b) for a, b in zip(keep + keepl, now + nowl)):
+                viol.append(("C11", f"C11:{_tag(l)}:result-overwritten",
+                             f"{name}: a gradient returned earlier changed when the gradient was evaluated again for another vector", rp))
+        except Exception:  # noqa: BLE001
+            pass
     return viol, n
 
 
@@ -176,7 +192,12 @@ def softabs_numeric():
         "repeated-eigenvalues": (np.diag([1.0, 1.0, 2.0]), 1.5),
         "repeated-eigenvalues-rotated": (None, 1.0),
         "size-1": (np.array([[0.7]]), 2.0),
+        "tiny-eigenvalue-large-coeff": (np.diag([8e-5, 0.7]) + 0.0, 3e4),
+        "tiny-eigenvalue-large-coeff-rotated": (None, 2e4),
+        "tiny-eigenvalue-small-coeff": (np.diag([5e-5, -1.3, 0.6]), 0.8),
     }
+    r2 = np.array([[0.6, -0.8], [0.8, 0.6]])
+    cases["tiny-eigenvalue-large-coeff-rotated"] = (r2 @ np.diag([-6e-5, 1.1]) @ r2.T, 2e4)
     q = np.array([[0.6, -0.8, 0.0], [0.8, 0.6, 0.0], [0.0, 0.0, 1.0]]) @ np.array([[1.0, 0.0, 0.0], [0.0, 0.28, -0.96], [0.0, 0.96, 0.28]])
     cases["repeated-eigenvalues-rotated"] = (q @ np.diag([0.5, 0.5, -1.0]) @ q.T, 1.0)
     for label, (s, coeff) in cases.items():
@@ -189,7 +210,7 @@ def softabs_numeric():
 
         def fd(f):
             g = np.zeros((k, k))
-            e = 1e-5
+            e = 1e-5 if float(np.min(np.abs(np.linalg.eigvalsh(s)))) > 1e-2 else 2e-7
             for i in range(k):
                 for j in range(k):
                     d = np.zeros((k, k))
